@@ -47,9 +47,14 @@ Failures are values (`.err k`), as in the VM.
               none does.  `_` always matches; a comparison pattern `op e` yields `s op e` (a failing
               comparison does not match); a type pattern `T` yields `type(s) == T`.
 
-NOT covered (the placeholder `notCovered` is returned; `Frag2` excludes these trees): a call whose callee
+NOT defined (the placeholder `notCovered` is returned; `Frag2` excludes these trees): a call whose callee
 is not a name (`(e)(..)`, `e[i](..)`, `f(..)(..)`), a macro whose loop-variable argument is not an
-identifier, functions bound by the caller (hence no call log), identifiers naming stored programs.
+identifier.  Not modelled at all: functions bound by the caller (hence no call log), identifiers naming
+stored programs.  `Frag2` further excludes trees `evalSpec` does define but the compiled code does not
+follow: an uncalled member access `o.f` where `f` names a function or macro (the VM leaves a bound
+method, no value), and — because of two defects of the folding rule `check_for_const`, see `methodOK`
+and `loopVarOK` below — `has`/`coalesce` in method position and loop variables named like a built-in
+function or macro; type patterns must name a type of the type table.
 `Frag` is the smaller fragment of `Theorems/C05Compile.lean`; `Frag2` the one of `Theorems/C05Compile2.lean`.
 -/
 namespace Rscel
